@@ -40,6 +40,8 @@ def run_tables(arg):
                 dps[n] = path
             else:
                 dps[n] = pd.DataFrame(t['rows'], columns=t['cols'], dtype=t.get('dtype', 'object'))
+                for c in t.get('floatcols', []):          # native float64 columns (the DOUBLE load path)
+                    dps[n][c] = dps[n][c].astype('float64')
         ds = {'datasets': arg['structures']}
         if arg.get('scalars'):
             ds['scalars'] = arg['scalars']
